@@ -149,7 +149,19 @@ func ruleUnknownStream(p *Prog, r *Out) {
 		if !ok {
 			return true
 		}
-		c, ok := p.canonCmp(ifs.Cond, nil)
+		// the idle test may also ask the closed-stream memory first: a refused
+		// stream is closed without ever having been the latest
+		cmpExpr := ifs.Cond
+		if ifs.Init != nil && squash(p.text(ifs.Init)) == "_,closed:=closedStrms[fr.Stream()]" {
+			if atoms, pure := pureJunction(ifs.Cond, true); pure && len(atoms) == 2 {
+				for i, a := range atoms {
+					if !a.Val && p.text(a.Cond) == "closed" && atoms[1-i].Val {
+						cmpExpr = atoms[1-i].Cond
+					}
+				}
+			}
+		}
+		c, ok := p.canonCmp(cmpExpr, nil)
 		if !ok || c.Op != "le" || len(c.L.T) != 2 {
 			return true
 		}
@@ -214,7 +226,7 @@ func ruleUnknownStream(p *Prog, r *Out) {
 		}
 	}
 	pos := p.pos(fd.Pos())
-	r.check(rstIdle, "RST_STREAM on an idle id only (id > lastID)", pos, "fr.Stream() > sc.lastID -> GOAWAY", "the test that makes RST_STREAM on an unknown stream a connection error is no longer exactly `id > lastID`: a late RST_STREAM for the most recent, already finished stream kills the connection (RFC 7540 s5.1: ignored on closed streams)")
+	r.check(rstIdle, "RST_STREAM on an idle id only (id > lastID)", pos, "fr.Stream() > sc.lastID (and not remembered as closed) -> GOAWAY", "the test that makes RST_STREAM on an unknown stream a connection error is no longer exactly `id > lastID` (possibly after asking the closed-stream memory): a late RST_STREAM for the most recent, already finished stream kills the connection (RFC 7540 s5.1: ignored on closed streams)")
 	r.check(lower, "lower-than-latest is strict (id < lastID)", pos, "fr.Stream() < sc.lastID -> GOAWAY", "the 'stream id lower than the latest' refusal is no longer exactly `id < lastID`")
 	r.check(lookup, "table lookup for ids up to lastID", pos, "fr.Stream() <= sc.lastID -> Search", "the stream table is searched under a condition on lastID other than `id <= lastID` (or not at all): ids at or below the highest accepted one must be found, or they are created a second time")
 }
@@ -288,14 +300,14 @@ func ruleCompletionCloses(p *Prog, r *Out) {
 				continue
 			}
 			c, ok := es.X.(*ast.CallExpr)
-			if !ok || p.calleeOf(c) != "(*serverConn).writeReset" || len(c.Args) != 2 {
+			if !ok {
 				continue
 			}
-			idc, ok := c.Args[0].(*ast.CallExpr)
-			if !ok || p.calleeOf(idc) != "(*Stream).ID" {
+			idText, _, _, isReset := p.resetCall(c)
+			if !isReset || !strings.HasSuffix(idText, ".ID()") {
 				continue
 			}
-			recv := p.text(idc.Fun.(*ast.SelectorExpr).X)
+			recv := strings.TrimSuffix(idText, ".ID()")
 			resets++
 			closedAfter := false
 			for j, t := range list {
